@@ -219,7 +219,7 @@ func genC10(c *Ctx) {
 				c.count("blob_in_reserved_namespace")
 			}
 			if ver == 1 {
-				g.signer = r.Bytes(20)
+				g.signer = randSigner(r)
 			}
 			shs, err := g.blob().ToShares()
 			wit := map[string]any{"version": int(ver), "data_len": l, "ns_last_byte": int(g.ns[28])}
@@ -283,6 +283,38 @@ func genC10(c *Ctx) {
 		}
 		c.add("speccompact", hx(ns), joinHexList(txs))
 		c.add("speccompactix", hx(ns), joinHexList(txs))
+	}
+	// every first-unit offset: for each position p of a continuation share's payload (reserved bytes =
+	// 34+p, incl. the values with a zero low byte such as 256) a unit crossing in from the previous share
+	// ends at p, and two more units start later in the same share (they must not overwrite the reserved bytes)
+	for p := 0; p < 478; p++ {
+		for _, pre := range []int{0, 478} {
+			ns := share.TxNamespace.Bytes()
+			if (p+pre/478)%3 == 2 {
+				ns = share.PayForBlobNamespace.Bytes()
+			}
+			first := 474 + pre + p - 2 // two-byte length prefix: delimited length 474+pre+p
+			if len(refDelimited(make([]byte, first))) != 474+pre+p {
+				continue
+			}
+			txs := [][]byte{r.Bytes(first), r.Bytes(10), r.Bytes(10 + r.Intn(30))}
+			css := share.NewCompactShareSplitter(nsOf(ns), 0)
+			for _, t := range txs {
+				_ = css.WriteTx(t)
+			}
+			shs, err := css.Export()
+			wit := map[string]any{"ns": hx(ns), "tx_lens": lensOf(txs), "first_unit_offset": 34 + p}
+			if c.check(err == nil, "CompactShareSplitter.Export", "error", wit) {
+				ref, _ := refCompact(ns, txs)
+				c.check(eqShares(ref, shs), "CompactShareSplitter", "shares differ from the specified encoding", wit)
+			}
+			c.count("first_unit_offset_sweep")
+			if p%16 == 0 || (34+p)%256 == 0 || p >= 470 {
+				c.add("speccompact", hx(ns), joinHexList(txs))
+			} else {
+				c.goOnly++
+			}
+		}
 	}
 	// Go side only: very long units (>= 1 MiB, >= 2 MiB) whose length prefix ends at / straddles a share end,
 	// compared with the independent encoder
@@ -435,7 +467,7 @@ func genC08(c *Ctx) {
 				g.ver = uint8(i % 2)
 				g.signer = nil
 				if g.ver == 1 {
-					g.signer = r.Bytes(20)
+					g.signer = randSigner(r)
 				}
 			}
 			blobs = append(blobs, g)
